@@ -770,6 +770,12 @@ func (c *updater) buildBackendOAuth(d *backData) {
 			c.logger.Error("path '%s' was not found on namespace '%s'", uriPrefix, namespace)
 			continue
 		}
+		// the oauth2 proxy can move to another service, or be removed: whoever
+		// authenticates through it needs to be rebuilt along with it
+		c.tracker.TrackRefs(
+			convtypes.TrackingRef{Context: convtypes.ResourceHABackend, UniqueName: d.backend.ID},
+			convtypes.TrackingRef{Context: convtypes.ResourceHABackend, UniqueName: backend.ID},
+		)
 		h := config.Get(ingtypes.BackOAuthHeaders)
 		headers := strings.Split(h.Value, ",")
 		headersMap := make(map[string]string, len(headers))
